@@ -43,6 +43,9 @@ def limit(case):
             v = Limit(f, full_output=False).limit(z0)
             if np.shape(v) != Z.shape or not np.allclose(v, g(Z), rtol=1e-7, atol=1e-7):
                 bad.append(dict(z0_layout=name, z0=Z.tolist(), got=np.asarray(v).tolist(), expected=g(Z).tolist()))
+    import numdifftools.limits as lm_
+    from ndvc.concrete import limit_kwargs_cases
+    bad += limit_kwargs_cases(lm_)[1]
     return dict(reproduced=bool(bad), failing=bad[:4], statement='Limit of a polynomial kernel of degree <= order+1 is its constant term')
 
 
@@ -66,6 +69,9 @@ def residue(case):
                                 bad.append(dict(p=p, order=order, method=method, path=path, raised=repr(e)[:100])); continue
                             if not abs(v - g[0]) <= 1e-7:
                                 bad.append(dict(pole_order=p, order=order, method=method, path=path, z0=str(z0), got=str(v), expected=str(g[0])))
+    import numdifftools.limits as lm_
+    from ndvc.concrete import limit_kwargs_cases
+    bad += limit_kwargs_cases(lm_)[1]
     return dict(reproduced=bool(bad), failing=bad[:4], statement='Residue of g(z)/(z-z0)^p is g(z0)')
 
 
